@@ -57,6 +57,7 @@ def gen(ctx):
         cases.append(rhistory_case(r, nt, bo, r.choice(ATOMS), r.choice(INDEXTYPES), sl, letters,
                                    mode=r.choice(['r+', 'r+', 'r']),
                                    metadata=r.choice([None, None, {'a': 1}])))
+    cases += raglib.trailing_empty_cases(r)
     return cases
 
 
@@ -91,6 +92,11 @@ def run(ctx):
                 if op['op'] == 'truncate' and st['res'][0] == 'ok' and \
                         (op.get('nonint') or not len(st['ref']) < len(steps[i - 1]['ref'])):
                     ctx.fail('invalid-truncate-accepted', dict(case=case, step=i), observed=st['res'])
+                    break
+                if op['op'] == 'truncate' and st['res'][0] != 'ok' and len(st['ref']) < len(steps[i - 1]['ref']):
+                    # (the reference only shortens for an int index in mode 'r+')
+                    ctx.fail('valid-truncate-raised', dict(case=case, step=i),
+                             expected='truncation to %d subarrays' % len(st['ref']), observed=st['res'])
                     break
         ctx.seen(key, nontrivial=changed)
         ctx.count('atomrank=%d' % len(case['atom'])); ctx.count('indextype:' + case['indextype'])
